@@ -15,6 +15,7 @@ from .common import CheckerError
 
 KINDS = ("bool", "int", "real", "complex")
 INDEX_OBLIG = [None]
+IN_RULE = [None]     # set by the harness while the RULE (not the primal) runs: receives the broadcast conditions met there
 
 
 def dim_term(d):
@@ -80,6 +81,8 @@ def bdim(a, b):
             raise ValueError("operands could not be broadcast together")
         return a
     ta, tb = dim_term(a), dim_term(b)
+    if IN_RULE[0] is not None:
+        IN_RULE[0](z3.Or(ta == tb, ta == 1, tb == 1))
     cx.assume(cx.SBool(z3.Or(ta == tb, ta == 1, tb == 1)))
     return cx.SInt(z3.simplify(z3.If(ta == 1, tb, ta)))
 
